@@ -154,6 +154,8 @@ theorem sameFrame_processNode (ctx : Ctx) (st : St) (n : Node) : SameFrame st (p
   unfold processNode
   simp only []
   have h1 := sameFrame_substInputs st n
+  split
+  · exact SameFrame.trans h1 ⟨rfl, rfl⟩
   have h2 : SameFrame st (if (substInputs st n).1.isOp "Constant" then processConstant ctx (substInputs st n).2 (substInputs st n).1
       else (substInputs st n).2) := by
     split
